@@ -6,13 +6,13 @@ data set has an active CMT column:
   * every dose record addresses, in the compartment numbering NM-TRAN derives from the generated code
     ($MODEL order, or the fixed order of the library ADVAN), the compartment the in-memory model doses into;
   * every observation record addresses the central compartment of the in-memory model;
-  * no record and no existing column other than CMT changes (a RATE column may be added).
+  * no record and no existing column other than CMT changes (a RATE column may be added, an existing one rewritten);
   * the RATE data item gives every dose record the kind of dose the in-memory model has and is 0 elsewhere;
-  * $PK of the generated code assigns the reserved parameters ALAGn, Fn, Dn, Rn, Sn that the compartments of the
+  * $PK of the generated code assigns the reserved parameters ALAGn, Fn, Dn, Rn that the compartments of the
     in-memory model imply, with n in the numbering of the generated code.
 Bound: 3 start models (bolus ADVAN1, oral ADVAN2, oral ADVAN4 with a peripheral compartment), then 2 more (oral
-ADVAN2 whose data set also has a RATE column that is 0 on all records, oral ADVAN2 that already has ALAG1 and F1), every sequence of <=1 (quick) / <=2 (thorough) of the structural transformations of
-contracts/b_nm.py."""
+ADVAN2 whose data set also has a RATE column that is 0 on all records, oral ADVAN2 that already has ALAG1 and F1),
+every sequence of <=1 (quick) / <=2 (thorough) of the structural transformations of contracts/b_nm.py."""
 import os
 import re
 import warnings
